@@ -58,7 +58,7 @@ CLAUSES = {
     "exc.dropped": {"C11"},
     "exc.wrapped_without_cause": {"C11"},
     "exc.replaced": {"C11"},
-    "ip.foreign_marker_visible": {"C12"},
+    "ip.foreign_marker_visible": {"C12", "C10"},   # a call that is not re-entrant in its own flow went unchecked
     "verdict.depends_on_schedule": {"C12"},
     "async.diverges_from_sync": {"C13"},
     "async.not_awaited": {"C13"},
